@@ -61,8 +61,9 @@ META = {
         'L-C20-3: begin, length in [0,100] s, same rates',
         'E1: arrays of <=4 samples at 2-4 Hz (index domain closed by forking), '
         'doubles as reals',
-        'duration > 0 and a non-empty signal for repeat_samples_to_duration '
-        '(duration == 0 raises ValueError: finding candidate, job left out)',
+        'a non-empty signal for repeat_samples_to_duration; lemmas and E1 take '
+        'duration > 0, duration == 0 is the concrete job e0_rates '
+        'zero_duration (F-C20-a, fixed)',
         'E0: WAV mono 16-bit (plus equal-channel stereo, float32) at the same '
         'rate as requested (no resampling); crop_wav_data at whole-sample '
         'window bounds',
@@ -76,7 +77,11 @@ META = {
     'outside': ['librosa resampling (rates different from the WAV header), '
                 'wav_data_to_samples_pydub / load_audio (ffmpeg), '
                 'normalize_wav_data, jitter_wav_data (float64 path of '
-                'float_samples_to_int16: finding candidate, job left out)'],
+                'float_samples_to_int16: observed, not an anchored function)',
+                'the WAV container clause (samples_to_wav_data / '
+                'wav_data_to_samples through scipy) is NOT decided by the '
+                'solver: scipy cannot be encoded; it is only exercised by the '
+                'concrete e0_wav job on all 65536 values x 5 rates'],
 }
 
 
